@@ -39,7 +39,7 @@ def reductions(prog):
             k, i = lists(root2, [])[n]
             node = k[i]
             t = node["t"]
-            stmt = t in ("expr", "var", "let", "const", "fdecl", "block", "if", "for", "return", "throw", "try", "switch", "break", "continue", "case", "forof", "evalcode", "varp", "letp", "constp")
+            stmt = t in ("expr", "var", "let", "const", "fdecl", "block", "if", "for", "return", "throw", "try", "switch", "break", "continue", "case", "forof", "evalcode", "varp", "letp", "constp", "with")
             if t in ("pel", "arr") or (t == "prop" and mode != "del"):
                 continue
             if mode == "del":
@@ -88,7 +88,12 @@ def main():
         want = oracle.bind_eval(ps, WD, "m", shards=min(8, len(ps) // 20 + 1))
         sel = [p for p in ps if want[p["id"]]["ty"] != "fuel" and bindgen.applicable(p, v)]
         got = oracle.bind_run(binp, sel, WD, "m", v)
-        return [p for p in sel if not oracle.bind_agree(want[p["id"]], got[p["id"]]) and not got[p["id"]].get("err", "").startswith("SyntaxError")], want, got
+        bad = [p for p in sel if not oracle.bind_agree(want[p["id"]], got[p["id"]]) and not got[p["id"]].get("err", "").startswith("SyntaxError")]
+        if bad:
+            # a disagreement that the recorded deviation (F-CALL-UNRESOLVED-ORDER) explains is not what is being minimised
+            w2 = oracle.bind_eval(bad, WD, "md", devs=["calleeLate"], shards=min(8, len(bad) // 20 + 1))
+            bad = [p for p in bad if w2[p["id"]]["ty"] != "fuel" and not oracle.bind_agree(w2[p["id"]], got[p["id"]])]
+        return bad, want, got
 
     cur = prog
     bad, want, got = mismatch([copy.deepcopy(cur)])
